@@ -7,6 +7,20 @@ GT = "./internal/mysql/gtids"
 OPT = "./internal/app/optimization"
 
 REGISTRY = {
+    "C13": dict(
+        level="exploration",
+        units=[
+            dict(pkg=GT, test="TestVerifC13Exhaustive", mode="plain"),
+            dict(pkg=GT, test="TestVerifC13Random", quick=20000, thorough=600000, shards_quick=4, shards_thorough=12),
+            dict(pkg=APP, test="TestVerifC13MostRecent", quick=20000, thorough=600000, shards_quick=4, shards_thorough=12),
+        ],
+    ),
+    "C14": dict(
+        level="exploration", death_is_violation=True,
+        units=[
+            dict(pkg=APP, test="TestVerifC14", quick=48000, thorough=2000000, shards_quick=8, shards_thorough=16, flight=True),
+        ],
+    ),
     "C12": dict(
         level="exploration",
         units=[
